@@ -80,7 +80,7 @@ pub fn check_log_upto(h: &Hist, info: &SchedInfo, upto: usize) -> Result<(bool, 
                         Op::TimerFor { dur, .. } if *dur != REBOOT_RECHECK && ph[j] != Phase::Checking => {
                             return Err(failure("minimum-wait-timer", format!("wait_for({dur:?}) does not carry the policy's minimum wait {:?}", answer.min_wait), h, around));
                         }
-                        Op::Quiescent | Op::ControlIssue { .. } | Op::ControlReply { .. } | Op::HandleClone { .. } | Op::HandleDrop { .. } | Op::Storage { .. } | Op::Committed { .. } | Op::TimerFor { .. } | Op::TimerFired { .. } | Op::Took(_) | Op::Metric(_) => {}
+                        Op::Quiescent | Op::Clock { .. } | Op::ControlIssue { .. } | Op::ControlReply { .. } | Op::HandleClone { .. } | Op::HandleDrop { .. } | Op::Storage { .. } | Op::Committed { .. } | Op::TimerFor { .. } | Op::TimerFired { .. } | Op::Took(_) | Op::Metric(_) => {}
                         _ => break,
                     }
                     if until.is_some() && (min_for.is_some() || answer.min_wait.is_none()) && announced {
